@@ -16,6 +16,7 @@ type executor struct {
 	stale [4]bool // attribute views point into memory overwritten by a failed header-stage decode
 	ag    *agentExec
 	hm    [8]*hmSlot
+	cl    *clientExec
 	ext  map[string]func(*executor, []string) (string, bool)
 }
 
